@@ -1,4 +1,4 @@
-From RJ Require Import Base.Prelude Model.LE Model.Elf Model.Pe.
+From RJ Require Import Base.Prelude Model.LE Model.Elf Model.Pe Model.DeployFile.
 From Coq Require Import Extraction ExtrOcamlBasic ExtrOcamlString.
 Extraction Language OCaml.
-Extraction "extracted/exe.ml" add_elf_gen extract_elf_gen add_pe_gen extract_pe_gen.
+Extraction "extracted/exe.ml" add_elf_gen extract_elf_gen add_pe_gen extract_pe_gen deploy_trace.
